@@ -771,7 +771,9 @@ func runScript(s scriptT) obsT {
 	l.add("", "Quiesced", vh.B(settled))
 	// a pair that ought to be connected and still is not after all those rounds (half a minute and more, the dial back-off
 	// scaled to 2 % or less) without ever falling silent - one side keeps dialling and is refused - is stuck: C05 judges it
-	stuck := !settled && wanted && unconnected && !l.flooded()
+	// (not while a transport is open between the two: a request that waits in pending-listen for a user who registered just
+	// before it arrived is ended by the dialler's 60 s timer and the pair connects anew - beyond this budget, see false alarm 24)
+	stuck := !settled && wanted && unconnected && !l.flooded() && eth.nodes["A"].px.nopen()+eth.nodes["B"].px.nopen() == 0
 	o := obsT{ID: s.ID, Script: s, Settled: settled, Stuck: stuck, Hubs: map[string]hubObs{}, ShutDown: shut, Sent: map[string][]string{},
 		UserReg: map[string]bool{"A": registered["A"], "B": registered["B"]}, AutoOn: map[string]bool{"A": autoOn["A"], "B": autoOn["B"]}}
 	// echo: whatever each application writes now must arrive at the other one
